@@ -1024,6 +1024,21 @@ func main() {
 			addGroup(c, []byte(s), standardChunkings(r, []byte(s), 100), "hook", 4, 64, "seed-hook")
 		}
 	}
+	// around the buffer size (64 KiB): growth, compaction and the BOM capacity overrun
+	big := func(n int) []byte { return bytes.Repeat([]byte("x"), n) }
+	var bigDocs [][]byte
+	for _, n := range []int{apiCap - 8, apiCap - 5, apiCap - 4, apiCap - 3, apiCap - 1} {
+		bigDocs = append(bigDocs, append(append(append([]byte(nil), bomBytes...), big(n-3)...), "\nc,d\n"...))
+	}
+	bigDocs = append(bigDocs,
+		append(append(big(apiCap-2), ",y\n"...), "p,q\n"...),
+		append(append([]byte("a,b\n"), append(big(apiCap/2+10), '\n')...), append(big(apiCap/2+10), "\nz\n"...)...),
+		append(append([]byte("\xEF\xBB\xBFa,b\n"), big(2*apiCap)...), "\nlast\n"...))
+	for _, d := range bigDocs {
+		chs := [][][]byte{{d}, splitAt(d, []int{len(d) / 2}), splitAt(d, []int{apiCap - 7, apiCap + 1})}
+		addGroup(ioCfg{Sep: ','}, d, chs, "api", apiCap, apiMax, "around-buffer-size")
+	}
+
 	nRandom := 260
 	if o.N > 0 {
 		nRandom = o.N
@@ -1046,21 +1061,6 @@ func main() {
 		mx := []int{8, 16, 64, 4096}[r.Intn(4)]
 		addGroup(c, d, standardChunkings(r, d, 12), "hook", cp, mx, kind+"-hook")
 	}
-	// around the buffer size (64 KiB): growth, compaction and the BOM capacity overrun
-	big := func(n int) []byte { return bytes.Repeat([]byte("x"), n) }
-	var bigDocs [][]byte
-	for _, n := range []int{apiCap - 8, apiCap - 5, apiCap - 4, apiCap - 3, apiCap - 1} {
-		bigDocs = append(bigDocs, append(append(append([]byte(nil), bomBytes...), big(n-3)...), "\nc,d\n"...))
-	}
-	bigDocs = append(bigDocs,
-		append(append(big(apiCap-2), ",y\n"...), "p,q\n"...),
-		append(append([]byte("a,b\n"), append(big(apiCap/2+10), '\n')...), append(big(apiCap/2+10), "\nz\n"...)...),
-		append(append([]byte("\xEF\xBB\xBFa,b\n"), big(2*apiCap)...), "\nlast\n"...))
-	for _, d := range bigDocs {
-		chs := [][][]byte{{d}, splitAt(d, []int{len(d) / 2}), splitAt(d, []int{apiCap - 7, apiCap + 1})}
-		addGroup(ioCfg{Sep: ','}, d, chs, "api", apiCap, apiMax, "around-buffer-size")
-	}
-
 	readImpl := make([]string, len(reads))
 	lines := make([]string, 0, len(reads))
 	for i, k := range reads {
